@@ -14,8 +14,8 @@ CLAIMS = {
              "aliasing of operands), which is an inductive step covering histories of any length; HTAB and DLIST: every operation sequence up to a "
              "length bound with arbitrary hash values / all node choices. The solver decides every obligation for all values inside the bound; "
              "memory-safety checks of CBMC are on.",
-        note="Bounds: bitmaps <= 3 (quick) / 4 (thorough) words; bit loops 1-3 words; HTAB 3 ops x 3 keys (quick), 4 x 4 (thorough), arbitrary 32-bit "
-             "hashes; DLIST 4/6 ops over 4 nodes; VARR length <= 6/10. Allocator is a legal MIR_alloc_t with a ledger (slot allocator: realloc keeps the "
+        note="Bounds: bitmaps <= 3 (quick) / 4 (thorough) words; bit loops 1-3 words; HTAB 3 ops x 3 keys (quick), 4 x 3 and 3 x 4 (thorough), arbitrary 32-bit "
+             "hashes; DLIST 4/5 ops over 4 nodes; VARR length <= 6/10. Allocator is a legal MIR_alloc_t with a ledger (slot allocator: realloc keeps the "
              "block); bitmap_copy of a bitmap onto itself is outside; trusted: CBMC, the harness models in harness/C19, gcc+ASan for replay.",
         technique=TECH + "; one-step-inductive harnesses from arbitrary states"),
     "C12": dict(
